@@ -1,4 +1,5 @@
 (** C17 - the outcome does not depend on how torrents and directories are presented.  Statements only. *)
+From TB Require Import IndexModel IndexBuild AvailProofs.
 From TB Require Import Base Decimal BencodeModel TorrentModel TorrentProofs PathModel FsModel SolverModel FinderModel RunModel
                        SolverProofs RunProofs FsProofs FaultProofs PreludeProofs TableProofs FinderProofs SearchProofs PresentProofs Generated GeneratedObligations GlueProofs SystemModel SystemProofs EstablishProofs CompleteProofs RerunProofs AvailProofs ScanSetProofs.
 From Coq Require Import Permutation Sorted.
@@ -65,6 +66,14 @@ Theorem C17_presence_monotone content f f' under under' es0 es0' s c i :
   present content f under es0 s c i -> present content f' under' es0' s c i.
 Proof. exact (present_mono content f f' under under' es0 es0' s c i). Qed.
 
+(** The index does not depend on the order or multiplicity of the insertions: scan directories
+    permuted, repeated or nested, the export directory among them (its files are then inserted by a
+    walk AND by the export probes), a torrent listed twice. *)
+Theorem C17_index_independent_of_insertion_order regs regs' : functional regs ->
+  (forall r, In r regs <-> In r regs') ->
+  forall n p id, IndexBuild.holds (build_index regs) n p id <-> IndexBuild.holds (build_index regs') n p id.
+Proof. exact (build_index_invariant regs regs'). Qed.
+
 Print Assumptions C17_distinct_torrents.
 Print Assumptions C17_torrent_list_presentation.
 Print Assumptions C17_candidates_order_independent.
@@ -76,3 +85,4 @@ Print Assumptions C17_scan_directory_repeated.
 Print Assumptions C17_scan_directory_nested.
 Print Assumptions C17_scan_directory_added.
 Print Assumptions C17_presence_monotone.
+Print Assumptions C17_index_independent_of_insertion_order.
